@@ -1,4 +1,5 @@
 import PPModel.Mod.Entry
+import PPModel.Mod.TermCheck
 import PPProofs.Lemmas.ParseTerm
 import PPProofs.Lemmas.ParseStrict
 /-!
@@ -75,15 +76,6 @@ theorem acyclic_terminates (g : Grammar) (r : Nat → Nat) (hr : rankOk g r = tr
     intro c hc
     have := rankOk_spec hr hg hc
     exact ih c this.1 (by omega)
-
-/-- the same with the rank computed rather than supplied: `depthOk g k id` — the sub-table reachable from `id` is a
-    tree-like (acyclic) structure of height `< k` inside the table -/
-def depthOk (g : Grammar) : Nat → Nat → Bool
-  | 0, _ => false
-  | k+1, i =>
-    match g[i]? with
-    | none => false
-    | some nd => nd.children.all (depthOk g k)
 
 /-- **fuel ≥ height suffices**: an element whose reachable sub-table has height `< k` does not hang with any fuel `≥ k` -/
 theorem acyclic_terminates_depth (g : Grammar) (s : List Char) (ha : Advancing g s) :
@@ -183,16 +175,6 @@ theorem advancing_of_nonempty (g : Grammar) (s : List Char)
       · exact skipIgnorables_ge _ _ _ _ _ _ hm
     omega
 
-/-- **executable form of the side condition**: every ignorable and every repetition body of the table passes the
-    syntactic test `consumes` (Lemmas/ParseStrict.lean: token leaves, `And`s containing one, `MatchFirst`s / `Or`s of
-    such, and `OneOrMore` / Group / Suppress / Combine / Located / Forward wrappers of such) at analysis depth `k` -/
-def advOk (g : Grammar) (k : Nat) : Bool :=
-  g.all fun nd =>
-    nd.ignore.all (consumes g k) &&
-    (match nd.kind with
-     | .many x _ _ => consumes g k x
-     | _ => true)
-
 /-- the executable test implies the semantic side condition, on every input -/
 theorem advancing_of_advOk (g : Grammar) (k : Nat) (h : advOk g k = true) (s : List Char) : Advancing g s := by
   apply advancing_of_nonempty
@@ -225,6 +207,32 @@ theorem entry_points_terminate_checked (g : Grammar) (r : Nat → Nat) (k : Nat)
     (∀ mm sk ov, (scanString (parse g s fuel) g root s mm sk ov).exc ≠ some .hang) :=
   ⟨fun pa => parseString_terminates g r hr s dw (advancing_of_advOk g k hk s) root hroot fuel hf pa,
    fun mm sk ov => scanString_terminates g r hr s (advancing_of_advOk g k hk s) root hroot fuel hf mm sk ov⟩
+
+/-- **the theorem the harness instantiates** (the driver evaluates both tests on every extracted node table, entry
+    `termcheck`): if the sub-table reachable from `root` is acyclic of height `< k` (`depthOk g k root`) and every
+    ignorable / repetition body of the table consumes something (`advOk g ka`), then on EVERY input, with any fuel `≥ k`,
+    neither parse_string (incl. parse_all) nor scan_string answers `hang`. -/
+theorem entry_points_terminate_depth (g : Grammar) (k ka root : Nat) (hd : depthOk g k root = true)
+    (hk : advOk g ka = true) (s dw : List Char) (fuel : Nat) (hf : k ≤ fuel) :
+    (∀ pa, parseString (parse g s fuel) g root dw s pa ≠ .hang) ∧
+    (∀ mm sk ov, (scanString (parse g s fuel) g root s mm sk ov).exc ≠ some .hang) := by
+  have ha := advancing_of_advOk g ka hk s
+  have hroot : NH (parse g s fuel) root := acyclic_terminates_depth g s ha k root hd fuel hf
+  cases k with
+  | zero => simp [depthOk] at hd
+  | succ k =>
+    unfold depthOk at hd
+    cases hg : g[root]? with
+    | none => rw [hg] at hd; simp at hd
+    | some nd =>
+      rw [hg] at hd
+      simp only [List.all_eq_true] at hd
+      have hig : ∀ e ∈ nd.ignore, NH (parse g s fuel) e ∧ IgnAdv (parse g s fuel) e := by
+        intro e he
+        have hc : e ∈ nd.children := by simp [Node.children, he]
+        exact ⟨acyclic_terminates_depth g s ha k e (hd e hc) fuel (by omega), (ha fuel root nd hg).1 e he⟩
+      exact ⟨fun pa => parseString_nohang g root dw s pa hg (parse_bndAll g s fuel) hig hroot,
+             fun mm sk ov => scanString_nohang g root s mm sk ov hg (parse_bndAll g s fuel) hig hroot⟩
 
 /-! ### non-vacuity -/
 
@@ -299,6 +307,10 @@ example (s : List Char) : parseString (parse exG s 4) exG 3 [' ', '\t', '\n', '\
 example (s : List Char) (mm : Nat) (sk ov : Bool) : (scanString (parse exG s 4) exG 3 s mm sk ov).exc ≠ some .hang :=
   scanString_terminates exG id (by decide) s (exG_advancing s) 3 (by decide) 4 (by decide) mm sk ov
 
+/-- the form the harness uses: both tests evaluated with bound = size of the table, fuel 1500 -/
+example (s : List Char) : parseString (parse exG s 1500) exG 3 [' '] s true ≠ .hang :=
+  (entry_points_terminate_depth exG exG.length exG.length 3 (by decide) (by decide) s [' '] 1500 (by decide)).1 true
+
 /-- the model does compute on it: "ab xyxy" is matched up to its end, 7 -/
 example : endOf (parse exG "ab xyxy".toList 4 3 0 true true) = some 7 := by
   decide +kernel
@@ -310,5 +322,12 @@ example : rankOk [leaf .empty, leaf (.many 0 none false)] id = true ∧
   decide +kernel
 
 end Example
+
+/-! ### recursive grammars
+
+Tables with `Forward` cycles fail `rankOk` / `depthOk`.  The generalisation to cycles that pass through a consuming `And`
+operand — measure (remaining input, rank), explicit fuel bound `(len + 1 - loc)·(R + 1) + r id + 1` — is
+`recursive_terminates_partial` in `PPProofs/Props/C06Rec.lean` (location-restricted lemma family
+`PPProofs/Lemmas/ParseTermRec.lean`); partial: tables containing `SkipTo` are not covered there. -/
 
 end PP.Parse
